@@ -14,7 +14,15 @@ def narrow_ancount(l):
     section 8). The narrowing is applied here, to both sides."""
     if not l.startswith("qr R[ "): return l
     t = l.split(" ")
-    if len(t) > 16 and t[16].startswith("N") and t[16][1:].isdigit(): t[16] = "N%d" % (int(t[16][1:]) % 65536)
+    depth, member = 0, -1
+    for i in range(1, len(t)):              # t[1] = "R[" opens the record; its members are the items at depth 1
+        tok = t[i]
+        if depth == 1 and tok != "]": member += 1
+        if tok.endswith("["): depth += 1
+        elif tok == "]": depth -= 1
+        elif depth == 1 and member == 14 and tok.startswith("N") and tok[1:].isdigit():
+            t[i] = "N%d" % (int(tok[1:]) % 65536)
+        if depth == 0: break
     return " ".join(t)
 
 def loosen(lines):
